@@ -216,10 +216,12 @@ def partitionable : Kind → Bool
   | _ => false
 
 /-- `add_plan_step(step, partition_size)`.
-`fixed = false` is the pinned code: a non-partitionable step arriving while a partition is open
-falls through to `plan.add_step` *without* `close_partition` (the `else: self.close_partition()`
-belongs to the outer `if self.partition:` and therefore only runs when no partition is open).
-`fixed = true` is the proposed repair `fixes/C09_1.diff`: close the partition on that path.
+`fixed = false` is the code BEFORE commit faf0f40 (kept for the witnesses): a non-partitionable step arriving while a
+partition is open falls through to `plan.add_step` *without* `close_partition` (the `else: self.close_partition()`
+belonged to the outer `if self.partition:` and therefore only ran when no partition was open).
+`fixed = true` is the code as it is now (plan_join.py `add_plan_step`: "next step can't be partitioned.
+self.close_partition()"), formerly the proposed repair `fixes/C09_1.diff`.  [review: doc-comment corrected, it
+still called `fixed = false` "the pinned code"]
 `dataframe` is `step.dataframe` (used for `MapReduceStep.values` when a partition is created). -/
 def addPlanStep (fixed : Bool) (st : St) (kind : Kind) (refs : List SNum) (dataframe : SNum)
     (psize : Bool) : St × SNum :=
